@@ -135,6 +135,155 @@ func (e *Engine) sweepContract(fn *ssa.Function, prop string) *Contract {
 	return ctr
 }
 
+// ownedPlaces lists what a function may write besides objects it allocates itself: the state owned by the
+// checker it belongs to (the receiver object with its embedded structs, the contents of its map and slice
+// fields, the warning buffer of its CheckerContext). Everything else - the syntax tree, type information,
+// the shared Context, registered metadata, other checkers - must stay untouched (property C05).
+func (e *Engine) ownedPlaces(name string, t types.Type, depth int) []string {
+	var out []string
+	pt, ok := t.Underlying().(*types.Pointer)
+	if !ok {
+		return nil
+	}
+	st, ok := pt.Elem().Underlying().(*types.Struct)
+	if !ok {
+		return nil
+	}
+	if strings.HasSuffix(pt.Elem().String(), "linter.CheckerContext") {
+		return []string{name + ".warnings", "elems(" + name + ".warnings)"}
+	}
+	if strings.HasSuffix(pt.Elem().String(), "linter.Context") || !isRepoStructPtr(t) {
+		return nil
+	}
+	stab := newSortTable()
+	var fields func(prefix string, owner types.Type, st *types.Struct, d int)
+	fields = func(prefix string, owner types.Type, st *types.Struct, d int) {
+		if d > 3 {
+			return
+		}
+		sname := stab.structName(owner)
+		for i := 0; i < st.NumFields(); i++ {
+			f := st.Field(i)
+			fn := prefix + "." + f.Name()
+			// only fields that some method writes after construction are scratch state; the others are configuration
+			written := e.writtenKeys == nil || e.writtenKeys[fieldKey(sname, f.Name())]
+			switch u := f.Type().Underlying().(type) {
+			case *types.Map:
+				if written {
+					out = append(out, fn)
+				}
+				out = append(out, "mapof("+fn+")")
+			case *types.Slice:
+				if written {
+					out = append(out, fn)
+				}
+				out = append(out, "elems("+fn+")")
+			case *types.Struct:
+				fields(fn, f.Type(), u, d+1)
+			case *types.Pointer:
+				if written {
+					out = append(out, fn)
+				}
+				if strings.HasSuffix(u.Elem().String(), "linter.CheckerContext") {
+					out = append(out, fn+".warnings", "elems("+fn+".warnings)")
+				}
+			default:
+				if written {
+					out = append(out, fn)
+				}
+			}
+		}
+	}
+	fields(name, pt.Elem(), st, depth)
+	return out
+}
+
+func (e *Engine) sweepAssigns(fn *ssa.Function) []*SExpr {
+	var places []string
+	for _, p := range fn.Params {
+		if p.Name() == "" || p.Name() == "_" {
+			continue
+		}
+		places = append(places, e.ownedPlaces(p.Name(), p.Type(), 0)...)
+	}
+	for _, fv := range fn.FreeVars {
+		places = append(places, e.ownedPlaces(fv.Name(), fv.Type().(*types.Pointer).Elem(), 0)...)
+	}
+	var out []*SExpr
+	for _, pl := range places {
+		if x, err := parseSpec(pl); err == nil {
+			out = append(out, x)
+		}
+	}
+	return out
+}
+
+// sweepFrameContract: the contract used for fn by the frame sweep, both when fn is verified and at its call sites:
+// the explicit contract if there is one (with the owned-state frame added when it has no `assigns`), else a synthesised one.
+func (e *Engine) sweepFrameContract(fn *ssa.Function, prop string) *Contract {
+	if e.sweepCtrs == nil {
+		e.sweepCtrs = map[*ssa.Function]*Contract{}
+	}
+	if c, ok := e.sweepCtrs[fn]; ok {
+		return c
+	}
+	var out *Contract
+	if ctr := e.ctrs[funcKey(fn)]; ctr != nil {
+		cp := *ctr
+		cp.Requires = append(append([]*Clause{}, ctr.Requires...), e.sweepContract(fn, prop).Requires...)
+		if !cp.HasAssign {
+			cp.HasAssign = true
+			cp.Assigns = e.sweepAssigns(fn)
+		} else if cp.TrustedFrame {
+			cp.Assigns = append(append([]*SExpr{}, cp.Assigns...), e.sweepAssigns(fn)...)
+		}
+		cp.TrustedFrame = false
+		out = &cp
+	} else {
+		out = e.sweepContract(fn, prop)
+		out.HasAssign = true
+		out.Assigns = e.sweepAssigns(fn)
+	}
+	// owned slices and maps stay owned: after the call each of them is what it was, or a freshly allocated one
+	seen := map[string]bool{}
+	for _, a := range out.Assigns {
+		if a.Op != "call" || len(a.Args) != 1 || (a.Name != "elems" && a.Name != "mapof") {
+			continue
+		}
+		x := a.Args[0].String()
+		if seen[x] {
+			continue
+		}
+		seen[x] = true
+		var src string
+		if a.Name == "elems" {
+			src = fmt.Sprintf("@owned-slice-stays-owned base(%s) == old(base(%s)) || fresh(%s) || base(%s) == 0", x, x, x, x)
+		} else {
+			src = fmt.Sprintf("@owned-map-stays-owned %s == old(%s) || fresh(%s) || %s == nil", x, x, x, x)
+		}
+		if c, err := parseClause(src, "sweep"); err == nil {
+			c.Label += " " + x
+			out.Ensures = append(out.Ensures, c)
+		}
+	}
+	e.sweepCtrs[fn] = out
+	return out
+}
+
+// outside the scope of C05 ("running a checker"): registration and construction code
+func frameSweepExcluded(key string) bool {
+	if strings.HasPrefix(key, "checkers.init@") && !strings.Contains(key, "$") {
+		return true
+	}
+	for _, p := range []string{"linter.addChecker", "linter.(*CheckerCollection).AddChecker", "checkers.InitEmbeddedRules", "linter.newChecker", "linter.NewChecker",
+		"linter.validateChecker", "linter.getCheckersInfo", "linter.GetCheckersInfo", "checkers.newRuleguardChecker", "checkers.newErrorHandler", "linter.(*Context).Set", "linter.resolvePkg", "linter.NewContext"} {
+		if strings.HasPrefix(key, p) {
+			return true
+		}
+	}
+	return false
+}
+
 func loadLedger(prop, kind string) map[string]bool {
 	out := map[string]bool{}
 	f, err := os.Open(filepath.Join(verifDir, "ledger", prop+"."+kind))
@@ -154,7 +303,12 @@ func loadLedger(prop, kind string) map[string]bool {
 }
 
 func sweepHook(prop string, keep func(o *Obligation) bool) propHook {
+	return sweepHookOpts(prop, keep, false)
+}
+
+func sweepHookOpts(prop string, keep func(o *Obligation) bool, frames bool) propHook {
 	return func(c *checkCtx) {
+		c.strictNew = frames
 		c.useLedger = true
 		c.provedLedger = loadLedger(prop, "proved")
 		c.frontierLedger = loadLedger(prop, "frontier")
@@ -170,16 +324,36 @@ func sweepHook(prop string, keep func(o *Obligation) bool) propHook {
 			if strings.HasSuffix(k, ".init") {
 				continue
 			}
+			if frames && frameSweepExcluded(k) {
+				continue
+			}
 			ctr := c.e.ctrs[k]
 			explicit := ctr != nil
-			if ctr == nil {
+			if frames {
+				if ctr != nil && ctr.Trusted {
+					continue
+				}
+				ctr = c.e.sweepFrameContract(fn, prop)
+			} else if ctr == nil {
 				ctr = c.e.sweepContract(fn, prop)
+				if frames {
+					ctr.HasAssign = true
+					ctr.Assigns = c.e.sweepAssigns(fn)
+				}
 			} else if ctr.Trusted {
 				continue
 			} else {
 				// explicit contract: keep it, add the sweep's entry assumption
 				cp := *ctr
 				cp.Requires = append(append([]*Clause{}, ctr.Requires...), c.e.sweepContract(fn, prop).Requires...)
+				if frames && !cp.HasAssign {
+					cp.HasAssign = true
+					cp.Assigns = c.e.sweepAssigns(fn)
+				}
+				if frames && cp.TrustedFrame {
+					cp.TrustedFrame = false // the sweep is where the frame of such functions is checked
+					cp.Assigns = append(append([]*SExpr{}, cp.Assigns...), c.e.sweepAssigns(fn)...)
+				}
 				ctr = &cp
 			}
 			opts := &genOptions{safety: true}
@@ -196,11 +370,23 @@ func sweepHook(prop string, keep func(o *Obligation) bool) propHook {
 				g.astValid = true
 				g.nilArgs = true
 				g.ifaceCtrs = ifaceCtrs
+				if frames {
+					g.sweepFrames = prop
+				}
 				if explicit && ctr.NoSafety {
 					g.options.safety = true // the sweep is where the safety obligations of nosafety functions are generated
 				}
 			})
 			c.addGenNoCover(g, func(o *Obligation) bool {
+				if frames {
+					if o.Kind == "frame" || strings.HasPrefix(o.Kind, "contract/assigns") {
+						return true
+					}
+					if (o.Kind == "post" || strings.HasPrefix(o.Kind, "loop#")) && strings.HasPrefix(o.Label, "owned-") {
+						return true
+					}
+					return strings.HasPrefix(o.Kind, "call/") && strings.Contains(o.Kind, "/pre") && strings.Contains(o.Label, "private")
+				}
 				switch o.Kind {
 				case "nil", "index", "slice", "typeassert", "div", "panic", "makeslice", "nilarg":
 					return keep == nil || keep(o)
@@ -242,4 +428,5 @@ func writeLedger(prop string, jobs []job) {
 
 func init() {
 	registerHook("C01", sweepHook("C01", nil))
+	registerHook("C05", sweepHookOpts("C05", nil, true))
 }
